@@ -2,6 +2,7 @@ SPECIFICATION Spec
 CONSTANTS
   Keys = {1, 2}
   NWs = {1, 2}
+  Lrus = {TRUE}
   MaxOps = 3
   FreeFail = TRUE
   Gated = FALSE
